@@ -17,6 +17,11 @@ def assemble_all(h, drv, sources, want_tokens=False):
     """Returns list of dicts: src, real, model, oracle (chk line or None)."""
     lines = ["asm " + hx(s) for s in sources]
     real = C.drive_parallel(h, lines, workdir=True, timeout_per_case=30.0)
+    left = [None] * len(real)     # bytes of output the real assembler left behind although it reported a diagnostic
+    for i, a in enumerate(real):
+        if a.startswith("diag ") and " LEFT=" in a:
+            a, l = a.rsplit(" LEFT=", 1)
+            real[i], left[i] = a, int(l)
     model = C.drive_parallel(drv, lines, timeout_per_case=30.0)
     chk_in, idx = [], []
     for i, (s, a) in enumerate(zip(sources, real)):
@@ -28,7 +33,7 @@ def assemble_all(h, drv, sources, want_tokens=False):
     oracle = [None] * len(sources)
     for i, c in zip(idx, chk):
         oracle[i] = c
-    out = [{"src": s, "real": a, "model": b, "oracle": o} for s, a, b, o in zip(sources, real, model, oracle)]
+    out = [{"src": s, "real": a, "model": b, "oracle": o, "left": l} for s, a, b, o, l in zip(sources, real, model, oracle, left)]
     if want_tokens:
         tl = ["tok " + hx(s) for s in sources]
         tr = C.drive_parallel(h, tl, workdir=True)
